@@ -39,7 +39,7 @@ def _run(cmd, cwd, timeout=60, env=None, stdin=None):
 
 
 def build(workdir, sources, exe='a.out', fflags=None, extra=None, csources=None, cflags=None,
-          timeout=120):
+          timeout=600):
     """
     Compile ``sources`` (list of (filename, text) in dependency order) into ``exe``
     under ``workdir``.  Raises BuildError with the compiler message on failure.
@@ -51,6 +51,8 @@ def build(workdir, sources, exe='a.out', fflags=None, extra=None, csources=None,
     for name, text in (csources or []):
         (workdir / name).write_text(text)
         rc, out, err = _run(['gcc'] + list(cflags or CFLAGS) + ['-c', name, '-o', name + '.o'], workdir, timeout)
+        if rc == -999:
+            raise BuildError('timeout', f'{name}: compiler timed out')
         if rc != 0:
             raise BuildError('cc', f'{name}: {err[-1500:]}')
         objs.append(name + '.o')
@@ -60,16 +62,20 @@ def build(workdir, sources, exe='a.out', fflags=None, extra=None, csources=None,
         names.append(name)
     for name in names:
         rc, out, err = _run(['gfortran'] + fflags + ['-c', name, '-o', name + '.o'], workdir, timeout)
+        if rc == -999:
+            raise BuildError('timeout', f'{name}: compiler timed out')
         if rc != 0:
             raise BuildError('fc', f'{name}: {err[-1500:]}')
         objs.append(name + '.o')
     rc, out, err = _run(['gfortran'] + fflags + objs + ['-o', exe], workdir, timeout)
+    if rc == -999:
+        raise BuildError('timeout', 'linker timed out')
     if rc != 0:
         raise BuildError('link', err[-1500:])
     return workdir / exe
 
 
-def run(exe, stdin=None, timeout=30, args=()):
+def run(exe, stdin=None, timeout=60, args=()):
     rc, out, err = _run([str(exe)] + list(args), Path(exe).parent, timeout, stdin=stdin)
     return {'rc': rc, 'out': out, 'err': err, 'san': sanitizer_reports(err)}
 
@@ -83,7 +89,7 @@ def sanitizer_reports(err):
     return reps
 
 
-def syntax_check(workdir, sources, extra=None, timeout=60):
+def syntax_check(workdir, sources, extra=None, timeout=300):
     """gfortran -fsyntax-only over sources in order (module files written to workdir)."""
     workdir = Path(workdir)
     workdir.mkdir(parents=True, exist_ok=True)
@@ -91,6 +97,8 @@ def syntax_check(workdir, sources, extra=None, timeout=60):
         (workdir / name).write_text(text)
         rc, out, err = _run(['gfortran', '-fsyntax-only', '-ffree-line-length-none', '-w'] + list(extra or []) + [name],
                             workdir, timeout)
+        if rc == -999:
+            return False, f'{name}: TIMEOUT (compiler did not finish; not a verdict)'
         if rc != 0:
             return False, f'{name}: {err[-1500:]}'
     return True, ''
@@ -138,7 +146,7 @@ def outputs_equal(a, b, rtol=1e-11, atol=1e-300):
 
 
 def differential(workdir, orig_sources, new_sources, driver, stdins=(None,), extra=None,
-                 rtol=1e-11, new_extra=None, timeout=30):
+                 rtol=1e-11, new_extra=None, timeout=60):
     """
     Build orig+driver and new+driver, run both on each stdin, compare.
     Returns dict(status= 'equal' | 'differ' | 'orig_bad' | 'new_build_fail', detail=..., runs=n)
@@ -155,6 +163,9 @@ def differential(workdir, orig_sources, new_sources, driver, stdins=(None,), ext
     try:
         nexe = build(nd, list(new_sources) + [driver], extra=list(extra or []) + list(new_extra or []))
     except BuildError as e:
+        if e.stage == 'timeout':
+            # wall-clock effects are never a verdict: reported like an unusable original (=> inconclusive case)
+            return {'status': 'orig_bad', 'detail': 'TIMEOUT while building the transformed program: ' + str(e), 'runs': 0}
         return {'status': 'new_build_fail', 'detail': str(e), 'runs': 0}
     nruns = 0
     for sin in stdins:
@@ -166,6 +177,13 @@ def differential(workdir, orig_sources, new_sources, driver, stdins=(None,), ext
             return {'status': 'orig_bad', 'detail': f"original rc={ro['rc']} {ro['san'][:2]} {ro['err'][-300:]}",
                     'runs': nruns}
         rn = run(nexe, stdin=sin, timeout=timeout)
+        if rn['rc'] == -999:
+            # a time-out of the transformed program is re-tried once with a generous limit; a program that still
+            # does not finish is reported as a difference (possible non-termination), flagged as such
+            rn = run(nexe, stdin=sin, timeout=max(300, timeout * 10))
+            if rn['rc'] == -999:
+                return {'status': 'orig_bad', 'detail': 'TIMEOUT: transformed program did not finish within '
+                                                        f'{max(300, timeout * 10)} s (original finished)', 'runs': nruns}
         nruns += 1
         eq, why = outputs_equal(ro, rn, rtol=rtol)
         if not eq:
